@@ -8,7 +8,7 @@ import (
 	"strconv"
 
 	"verif/harness/internal/core"
-	_ "verif/harness/internal/props"
+	"verif/harness/internal/props"
 )
 
 func main() {
@@ -38,6 +38,15 @@ func main() {
 			os.Exit(2)
 		}
 		os.Exit(core.ReplayMain(os.Args[2]))
+	case "race":
+		if len(os.Args) != 5 {
+			fmt.Fprintln(os.Stderr, "usage: vh-race race <seed> <from> <to>")
+			os.Exit(2)
+		}
+		seed, _ := strconv.ParseUint(os.Args[2], 10, 64)
+		from, _ := strconv.Atoi(os.Args[3])
+		to, _ := strconv.Atoi(os.Args[4])
+		os.Exit(props.RaceMain(seed, from, to))
 	case "list":
 		for _, id := range core.IDs() {
 			fmt.Println(id)
